@@ -322,4 +322,93 @@ theorem rib_minimal (ops : List RibOp) :
 example : (({} : Rib).run [RibOp.add [⟨8, [97]⟩, ⟨8, [98]⟩] 1 0, RibOp.add [⟨8, [97]⟩] 2 0, RibOp.cleanUp 1]).nodes = [[⟨8, [97]⟩]] := by
   decide
 
+/-! ### the executable predicates of the driver hold on the models' dumps -/
+
+theorem sameSet_iff (a b : List Name) : sameSet a b = true ↔ ∀ x, x ∈ a ↔ x ∈ b := by
+  simp only [sameSet, subset, Bool.and_eq_true, List.all_eq_true, C07.memb_iff]
+  constructor
+  · rintro ⟨h1, h2⟩ x; exact ⟨h1 x, h2 x⟩
+  · intro h; exact ⟨fun x hx => (h x).mp hx, fun x hx => (h x).mpr hx⟩
+
+theorem rib_minimal_spec (ops : List RibOp) :
+    ribMinimal (({} : Rib).run ops).nodes (({} : Rib).run ops).liveList = true :=
+  (sameSet_closure_iff _ _).mpr (rib_minimal ops).1
+
+theorem fib_tree_minimal_spec (ops : List FibOp) :
+    sameSet (({} : FibTree).run ops).nodes (closure (({} : FibTree).run ops).liveList) = true :=
+  (sameSet_closure_iff _ _).mpr (fib_tree_minimal ops).1
+
+theorem aget_of_mem_nodup {β : Type} (d : β) (m : List (Name × β)) (h : (keys m).Nodup) {p : Name × β} (hp : p ∈ m) :
+    aget d m p.1 = p.2 := by
+  induction m with
+  | nil => cases hp
+  | cons q t ih =>
+    obtain ⟨k, w⟩ := q
+    simp only [keys, List.map_cons, List.nodup_cons] at h
+    rcases List.mem_cons.mp hp with rfl | hp'
+    · simp [aget]
+    · have hne : ¬ k = p.1 := by
+        intro e; apply h.1; rw [e]; exact List.mem_map.mpr ⟨p, hp', rfl⟩
+      simp only [aget, hne, ↓reduceIte]
+      exact ih h.2 hp'
+
+theorem maxLen_congr {a b : List Name} (h : ∀ x, x ∈ a ↔ x ∈ b) : maxLen a = maxLen b := by
+  cases hb : b with
+  | nil =>
+    have : a = [] := List.eq_nil_iff_forall_not_mem.mpr (fun x hx => by have := (h x).mp hx; rw [hb] at this; cases this)
+    rw [this]
+  | cons y t =>
+    have hne : b ≠ [] := by rw [hb]; simp
+    obtain ⟨z, hz, hzl⟩ := maxLen_attained hne
+    rw [← hb]
+    exact maxLen_eq_of (fun x hx => mem_le_maxLen ((h x).mp hx)) ⟨z, (h z).mpr hz, hzl⟩
+
+/-- the predicate `fibHashMinimal` the driver evaluates on the real code's dump holds on the dump of
+    the model after every history -/
+theorem fib_hash_minimal_spec (m : Nat) (hm : 1 ≤ m) (ops : List FibOp) :
+    let f := ({ m := m } : FibHash).run ops
+    fibHashMinimal m (keys f.real) ((keys f.real).filter (fun n => liveE (aget ([], false) f.real n))) f.virt f.vnames = true := by
+  intro f
+  obtain ⟨_, hlive, hnN, hnT, hsame, hkeys, hrec⟩ := fib_hash_minimal m hm ops
+  have hlong : ∀ v x, x ∈ ((keys f.real).filter (fun n => decide (n.length ≥ m))).filter (fun n => decide (n.take m = v)) ↔
+      (x ∈ keys f.real ∧ m ≤ x.length ∧ x.take m = v) := by
+    intro v x; simp only [List.mem_filter, decide_eq_true_eq, ge_iff_le]; constructor
+    · rintro ⟨⟨h1, h2⟩, h3⟩; exact ⟨h1, h2, h3⟩
+    · rintro ⟨h1, h2, h3⟩; exact ⟨⟨h1, h2⟩, h3⟩
+  have hvs : ∀ v, v ∈ ((keys f.real).filter (fun n => decide (n.length ≥ m))).map (fun n => n.take m) ↔ v ∈ keys f.vnames := by
+    intro v
+    rw [hkeys v]
+    simp only [List.mem_map, List.mem_filter, decide_eq_true_eq, ge_iff_le]
+    constructor
+    · rintro ⟨x, ⟨h1, h2⟩, h3⟩; exact ⟨x, h1, h2, h3⟩
+    · rintro ⟨x, h1, h2, h3⟩; exact ⟨x, ⟨h1, h2⟩, h3⟩
+  unfold fibHashMinimal
+  simp only [Bool.and_eq_true, List.all_eq_true, decide_eq_true_eq, beq_iff_eq]
+  refine ⟨⟨⟨⟨⟨⟨?_, ?_⟩, ?_⟩, ?_⟩, ?_⟩, ?_⟩, ?_⟩
+  · rw [sameSet_iff]; intro x
+    simp only [List.mem_filter]
+    exact ⟨fun hx => ⟨hx, hlive x hx⟩, fun hx => hx.1⟩
+  · rw [sameSet_iff]; intro v
+    show v ∈ keys f.virt ↔ _
+    rw [hvs v, hsame v]
+  · rw [sameSet_iff]; intro v
+    show v ∈ keys f.vnames ↔ _
+    rw [hvs v]
+  · intro p hp
+    have hk : p.1 ∈ keys f.virt := List.mem_map.mpr ⟨p, hp, rfl⟩
+    have hkN := (hsame p.1).mp hk
+    obtain ⟨h1, _, h3⟩ := hrec p.1 hkN
+    rw [← aget_of_mem_nodup 0 f.virt hnT hp, h3]
+    apply maxLen_congr
+    intro x; rw [h1 x, hlong p.1 x]
+  · intro p hp
+    have hkN : p.1 ∈ keys f.vnames := List.mem_map.mpr ⟨p, hp, rfl⟩
+    obtain ⟨h1, _, _⟩ := hrec p.1 hkN
+    rw [sameSet_iff]; intro x
+    rw [← aget_of_mem_nodup [] f.vnames hnN hp, h1 x, hlong p.1 x]
+  · have hperm : (keys f.virt).Perm (keys f.vnames) := (List.perm_ext_iff_of_nodup hnT hnN).mpr hsame
+    have := hperm.length_eq
+    simpa [keys] using this
+  · exact hnT
+
 end Ndn.C08
